@@ -42,9 +42,28 @@ def key_of(coords):
     return (int(coords[0][0]), int(coords[0][1]))
 
 
+class CountScript(Script):
+    """Scripted excess keyed by the borehole count (row-wise runs: the fields are the repository's own, their count is what the script sees)."""
+
+    class _Tab(dict):
+        def __init__(self, fn):
+            super().__init__()
+            self.fn = fn
+
+        def __missing__(self, n):
+            v = float(self.fn(n))
+            self[n] = v
+            return v
+
+    def __init__(self, fn, slope):
+        super().__init__(CountScript._Tab(fn), slope)
+
+
 @contextlib.contextmanager
-def scripted_physics(script: Script):
+def scripted_physics(script: Script, key_fn=None):
     import ghedesigner.search_routines as sr
+
+    key_fn = key_fn or key_of
 
     class FakeGF:
         def __init__(self, coords):
@@ -55,7 +74,7 @@ def scripted_physics(script: Script):
             self.bhe = SimpleNamespace(b=borehole, fluid=fluid, pipe=pipe, grout=grout, soil=soil, m_flow_borehole=0.3)
             self.gFunction = g_function
             self.sim_params = sim_params
-            self.key = key_of(g_function.bore_locations)
+            self.key = key_fn(g_function.bore_locations)
             self.nbh = len(g_function.bore_locations)
             self.hp_eft = []
             self.fieldSpecifier = kw.get("field_specifier")
@@ -124,6 +143,122 @@ def run_design(kind, domain, descriptors, script, cap, flag):
     rec["escape_large"] = txt.count("Largest available configuration selected.")
     rec["log"] = list(script.log)
     return rec
+
+
+def run_rowwise(script, geo, flag, flow_type_name="BOREHOLE"):
+    """The real RowWiseModifiedBisectionSearch (real field generation on a real lot) on scripted physics + the manager's closing sizing."""
+    import ghedesigner.search_routines as sr
+    from ghedesigner.enums import FlowConfigType, TimestepType
+    from ghedesigner.geometry import GeometricConstraintsRowWise
+    from ghedesigner.simulation import SimulationParameters
+
+    sp = SimulationParameters(1, 12, TMAX, TMIN, HMAX, HMIN, None, flag)
+    borehole = SimpleNamespace(H=100.0, r_b=0.07, D=2.0)
+    fluid = SimpleNamespace(rho=998.0)
+    gc = GeometricConstraintsRowWise(geo["perimeter_spacing_ratio"], geo["min_spacing"], geo["max_spacing"], geo["spacing_step"],
+                                     math.radians(geo["min_rotation"]), math.radians(geo["max_rotation"]), geo["rotate_step"],
+                                     geo["property_boundary"], geo["no_go_boundaries"])
+    rec = {"kind": "rowwise", "cap": None, "flag": flag}
+    out = io.StringIO()
+    script.log = []
+    with scripted_physics(script, key_fn=len), contextlib.redirect_stdout(out):
+        try:
+            s = sr.RowWiseModifiedBisectionSearch(0.5, borehole, None, fluid, None, None, None, sp, [], gc, method=TimestepType.HYBRID,
+                                                  flow_type=getattr(FlowConfigType, flow_type_name))
+            s.ghe.compute_g_functions()
+            s.ghe.size(method=TimestepType.HYBRID)
+            rec["outcome"] = "design"
+            rec["key"] = len(s.selected_coordinates)
+            rec["count"] = len(s.selected_coordinates)
+            rec["H"] = float(s.ghe.bhe.b.H)
+            rec["ghe_key"] = s.ghe.key
+        except ValueError as e:
+            rec["outcome"] = "ValueError"
+            rec["msg"] = str(e)[:80]
+        except Exception as e:  # noqa: BLE001
+            rec["outcome"] = "exception"
+            rec["msg"] = f"{type(e).__name__}: {str(e)[:100]}"
+    txt = out.getvalue()
+    rec["escape_small"] = txt.count("Smallest available configuration selected.")
+    rec["escape_large"] = txt.count("Largest available configuration selected.")
+    rec["log"] = list(script.log)
+    return rec
+
+
+def judge_rowwise(rec, script):
+    """C01 and the input-independent clauses of C02 for a row-wise run (counts are whatever the real generator produced)."""
+    out = {"C01": [], "C02": [], "C05": []}
+    if rec["outcome"] == "exception":
+        out["C02"].append(("scripted-rowwise:non-ValueError-escapes", rec["msg"]))
+        return out
+    if rec["outcome"] == "ValueError":
+        if rec["flag"] and rec.get("msg") == "Search failed.":
+            out["C02"].append(("scripted-rowwise:error-raised-although-asked-to-continue", rec["msg"]))
+        return out
+    H, n = rec["H"], rec["count"]
+    esc = rec["escape_small"] + rec["escape_large"] > 0
+    if not (HMIN - 1e-12 <= H <= HMAX + 1e-12):
+        out["C02"].append(("scripted-rowwise:height-outside-window", f"H={H}"))
+    if esc and not rec["flag"]:
+        out["C02"].append(("scripted-rowwise:escape-taken-although-flag-off", f"{n} boreholes"))
+    if rec["ghe_key"] != n:
+        out["C01"].append(("scripted-rowwise:returned-exchanger-is-not-the-selected-field", f"selected {n} boreholes, exchanger has {rec['ghe_key']}"))
+    e_final = script.excess(n, H)
+    if not esc and e_final > 1e-3:
+        ev = sorted({(k, round(e, 3)) for (k, h, e) in rec["log"] if abs(h - HMAX) < 1e-9})
+        out["C01"].append(("scripted-rowwise:returned-design-infeasible", f"{n} boreholes at H={H:.3f}: excess {e_final:.4g} K, no escape message; evaluated at max height (count, excess): {ev[:8]}"))
+    if not esc and HMIN + 1e-9 < H < HMAX - 1e-9 and abs(e_final) > 1e-3:
+        out["C05"].append(("scripted-rowwise:height-not-a-root", f"excess {e_final:.4g} at interior H={H:.3f}"))
+    return out
+
+
+def rowwise_case(g):
+    """A small convex lot and a spacing window that gives different counts at its two ends, plus a scripted count -> excess family."""
+    from vf.gen import lots as GLOT
+
+    size = float(round(g.uniform(40, 75), 1))
+    poly = GLOT.convex(g, size, n=int(g.integers(4, 8))) if g.random() < 0.6 else [[0.0, 0.0], [size, 0.0], [size, round(size * g.uniform(0.6, 1.0), 1)], [0.0, round(size * 0.8, 1)]]
+    min_sp = float(round(g.uniform(5.5, 8.5), 1))
+    max_sp = float(round(min_sp * g.uniform(1.25, 1.9), 1))
+    rot_lo = float(g.choice([-30.0, 0.0, 0.0, 15.0]))
+    geo = {"perimeter_spacing_ratio": (float(round(g.uniform(0.7, 0.95), 2)) if g.random() < 0.35 else None), "min_spacing": min_sp, "max_spacing": max_sp,
+           "spacing_step": float(round(g.uniform(0.2, 1.0), 2)), "min_rotation": rot_lo, "max_rotation": rot_lo + float(g.choice([10.0, 20.0, 30.0])),
+           "rotate_step": 10.0, "property_boundary": [list(map(float, p)) for p in poly], "no_go_boundaries": []}
+    return geo
+
+
+def rowwise_family(g, n_lo, n_hi):
+    """count -> excess at max height.  n_lo = count at the largest spacing, n_hi = count at the smallest spacing."""
+    fam = str(g.choice(["bracketed", "bracketed", "bracketed", "all-feasible", "none-feasible", "inverted", "inverted", "noisy", "hump"]))
+    lo, hi = min(n_lo, n_hi), max(n_lo, n_hi)
+    span = max(1, hi - lo)
+    thr = float(g.uniform(lo + 0.2, hi - 0.2)) if hi > lo else lo + 0.5
+    a = float(g.uniform(0.05, 0.6))
+    noise = {}
+
+    def nz(n):
+        if n not in noise:
+            noise[n] = float(g.normal(0, 1))
+        return noise[n]
+
+    if fam == "bracketed":
+        fn = lambda n: a * (thr - n) + 0.0007  # noqa: E731
+    elif fam == "all-feasible":
+        t1 = float(g.uniform(0.3, lo - 0.3)) if lo > 1 else 0.5
+        fn = lambda n: a * (t1 - n) + 0.0007  # noqa: E731
+    elif fam == "none-feasible":
+        fn = lambda n: a * (hi + float(span) * 0.3 + 1.3 - n)  # noqa: E731
+    elif fam == "inverted":
+        # denser field hotter (shared system flow going laminar): feasible at the sparse end, infeasible at the dense end
+        fn = lambda n: a * (n - thr) + 0.0007  # noqa: E731
+    elif fam == "noisy":
+        fn = lambda n: a * (thr - n) + 0.0007 + 0.8 * a * nz(n)  # noqa: E731
+    else:
+        # hump: both ends feasible, counts in between not (or the reverse sign)
+        sgn = 1.0 if g.random() < 0.5 else -1.0
+        mid = 0.5 * (lo + hi)
+        fn = lambda n: sgn * a * ((0.5 * span) ** 2 * 0.6 - (n - mid) ** 2) / max(1.0, 0.5 * span) + 0.0007  # noqa: E731
+    return fam, fn
 
 
 # ------------------------------------------------------------------ domains shaped like the repository's
@@ -320,4 +455,43 @@ def run_batch(spec):
             sc2 = Script(tab, slope)
             rec = run_design("zd", nested, descr, sc2, cap, flag)
             handle(rec, nested, sc2, {"kind": "zd", "lists": L, "level": level, "cap": cap, "flag": flag, "slope": slope})
+    # ---- row-wise search: real field generation on real lots, scripted count -> excess
+    from ghedesigner.rowwise import field_optimization_fr, field_optimization_wp_space_fr, gen_shape
+
+    for it in range(spec.get("nrow", max(30, spec["nnested"] // 3))):
+        geo = rowwise_case(g)
+        pb, ng = gen_shape(geo["property_boundary"], geo["no_go_boundaries"])
+        kw = dict(ng_zones=ng, rotate_start=math.radians(geo["min_rotation"]), rotate_stop=math.radians(geo["max_rotation"]))
+        try:
+            if geo["perimeter_spacing_ratio"] is None:
+                n_hi = len(field_optimization_fr(geo["min_spacing"], geo["rotate_step"], pb, **kw)[0])
+                n_lo = len(field_optimization_fr(geo["max_spacing"], geo["rotate_step"], pb, **kw)[0])
+            else:
+                n_hi = len(field_optimization_wp_space_fr(geo["perimeter_spacing_ratio"], geo["min_spacing"], geo["rotate_step"], pb, **kw)[0])
+                n_lo = len(field_optimization_wp_space_fr(geo["perimeter_spacing_ratio"], geo["max_spacing"], geo["rotate_step"], pb, **kw)[0])
+        except Exception:  # noqa: BLE001 - lot the generator itself cannot fill: not this lane's subject (C14)
+            st("rowwise_lot_skipped")
+            continue
+        if n_hi <= n_lo or n_lo < 2:
+            st("rowwise_lot_skipped")
+            continue
+        for rep_ in range(3):
+            fam, fn = rowwise_family(g, n_lo, n_hi)
+            flag = bool(g.random() < 0.4)
+            slope = float(g.choice([0.002, 0.02, 0.2]))
+            sc = CountScript(fn, slope)
+            rec = run_rowwise(sc, geo, flag, "SYSTEM" if g.random() < 0.3 else "BOREHOLE")
+            case = {"kind": "rowwise", "family": fam, "flag": flag, "slope": slope, "counts_at_window_ends": [n_lo, n_hi], "geometry": geo}
+            res["runs"] += 1
+            st("outcome_" + rec["outcome"])
+            st("kind_rowwise")
+            st("rowwise_family_" + fam)
+            if rec["outcome"] == "design":
+                st("rowwise_escaped" if rec["escape_small"] + rec["escape_large"] else "rowwise_regular")
+            else:
+                st("rowwise_" + rec["outcome"] + ":" + rec.get("msg", "")[:40])
+            for p_, lst in judge_rowwise(rec, sc).items():
+                for mech, msg in lst:
+                    if len(res["viol"][p_]) < 12:
+                        res["viol"][p_].append({"mechanism": mech, "message": msg, "case": case})
     return res
